@@ -589,10 +589,61 @@ def codec_skips_nothing(ctx: Ctx, rep: Report, rid: str = "R08.12") -> None:
 
     rep.rule(rid)
     n = 0
-    for q in ("helpers.string_to_ports", "helpers._port_range_min_max"):
-        f = ctx.prog.find_func(q)
-        if f is None:
-            continue
+    top = ctx.func("helpers.string_to_ports")
+    units = [top] + [g for g in ctx.cg.reach([top], include_weak=False) if g is not top and g.module is top.module and g.cls is None and g.name.startswith("_")]
+
+    def well_formedness_only(test: ast.AST, g: Func, depth: int = 0) -> Optional[ast.AST]:
+        """None when the filter only asks whether the piece is a number / two numbers; else the offending part."""
+        if isinstance(test, ast.BoolOp):
+            for v in test.values:
+                bad = well_formedness_only(v, g, depth)
+                if bad is not None:
+                    return bad
+            return None
+        if isinstance(test, ast.UnaryOp) and isinstance(test.op, ast.Not):
+            return well_formedness_only(test.operand, g, depth)
+        if isinstance(test, ast.Name):
+            return None
+        if isinstance(test, ast.Compare) and "len(" in src(test) and not any(isinstance(x, ast.Call) and src(x.func) == "int" for x in ast.walk(test)):
+            return None
+        if isinstance(test, ast.Call) and isinstance(test.func, ast.Attribute) and test.func.attr == "isdigit":
+            return None
+        if isinstance(test, ast.Call) and isinstance(test.func, ast.Name) and test.func.id == "all" and len(test.args) == 1 and isinstance(test.args[0], (ast.GeneratorExp, ast.ListComp)):
+            return well_formedness_only(test.args[0].elt, g, depth)
+        if isinstance(test, ast.Call) and isinstance(test.func, ast.Name) and depth < 2:
+            h_ = ctx.prog.resolve_name(g.module, test.func.id)
+            if isinstance(h_, Func):
+                rets = [r.value for r in own_nodes(h_.node) if isinstance(r, ast.Return) and r.value is not None]
+                for r in rets:
+                    bad = well_formedness_only(r, h_, depth + 1)
+                    if bad is not None:
+                        return bad
+                if rets:
+                    return None
+        return test
+
+    for f in units:
+        for x in own_nodes(f.node):
+            if isinstance(x, (ast.SetComp, ast.ListComp)) and len(x.generators) == 1 and x.generators[0].ifs and isinstance(x.generators[0].target, ast.Name):
+                # only filters over the PIECES of the string (what `.split(",")` gave), not over computed port numbers
+                it = x.generators[0].iter
+                piece_src = src(it)
+                if isinstance(it, ast.Name):
+                    piece_src = " ".join(src(d.value) for d in own_nodes(f.node) if isinstance(d, (ast.Assign, ast.AnnAssign)) and d.value is not None and any(isinstance(t, ast.Name) and t.id == it.id for t in (d.targets if isinstance(d, ast.Assign) else [d.target])))
+                if ".split(" not in piece_src:
+                    continue
+                if isinstance(x.elt, ast.Name) and x.elt.id == x.generators[0].target.id and isinstance(it, ast.Call):
+                    continue  # `[s for s in ports.split(",") if s]`: the split itself, empty pieces removed
+                n += 1
+                rep.instance()
+                bad = None
+                for c in x.generators[0].ifs:
+                    bad = bad or well_formedness_only(c, f)
+                if bad is not None:
+                    rep.violation(f.qualname, snippet(x, 70), f"pieces of the range string are filtered by `{snippet(bad, 40)}`, which is not a question about the piece being a number or two numbers: ports that the string names are missing from the set that is read back", where(f, x), inp="'1-65535'")
+                else:
+                    rep.ok(f"{f.qualname}: {snippet(x, 50)}", "a piece is passed over only when it is not a number / not two numbers", where=where(f, x))
+    for f in units:
         cfg = ctx.cfg(f)
         for lp in [x for x in cfg.live if x.kind == "for" and isinstance(x.ast.target, ast.Name)]:
             var = lp.ast.target.id
@@ -615,9 +666,9 @@ def codec_skips_nothing(ctx: Ctx, rep: Report, rid: str = "R08.12") -> None:
                     break
             if bad is not None:
                 held = "; ".join(f"{snippet(t, 40)}{'' if tr else ' (false)'}" for t, tr in bad) or "unconditionally"
-                rep.violation(q, f"for {var} in {snippet(lp.ast.iter, 20)}: skipped under [{held}]", "a well-formed piece of the range string is passed over: the ports it stands for are missing from the set that is read back", where(f, lp.ast), inp="'1-79,81-65535' / '1-65535'")
+                rep.violation(f.qualname, f"for {var} in {snippet(lp.ast.iter, 20)}: skipped under [{held}]", "a well-formed piece of the range string is passed over: the ports it stands for are missing from the set that is read back", where(f, lp.ast), inp="'1-79,81-65535' / '1-65535'")
             else:
-                rep.ok(f"{q}: for {var} in {snippet(lp.ast.iter, 20)}", "a piece is passed over only when it is not two numbers", where=where(f, lp.ast))
+                rep.ok(f"{f.qualname}: for {var} in {snippet(lp.ast.iter, 20)}", "a piece is passed over only when it is not two numbers", where=where(f, lp.ast))
     rep.floor(2, "piece loops of the range-string reader") if n else None
 
 
